@@ -59,6 +59,7 @@ class Contract:
         self.ret_type = None
         self.kind = 'verify'        # 'verify' | 'inline' | 'trusted' (assumed contract, listed as such) | 'external'
         self.pure_flag = False
+        self.bounded_flag = False
         self.gen = None             # native input generator: callable(rnd) -> (args tuple) or dict
         self.fresh_result = False
         self.ghost_entry = []
@@ -105,6 +106,10 @@ class Contract:
         self.kind = 'inline'; return self
     def trusted(self, note=''):
         self.kind = 'trusted'; self.note = note; return self
+    def bounded(self, note=''):
+        """assumed at call sites like a trusted contract, but additionally evaluated on the real function over generated inputs
+        (a bounded stand-in, reported as such; never counted as proved)"""
+        self.kind = 'trusted'; self.note = 'bounded stand-in: ' + note; self.bounded_flag = True; return self
     def external(self, note=''):
         self.kind = 'external'; self.note = note; return self
     def fresh(self):
